@@ -329,6 +329,131 @@ class MatchVal:
         return NotImplemented
 
 
+class SuppressVal:
+    """contextlib.suppress(*exceptions)"""
+
+    def __init__(self, names):
+        self.names = names
+
+    def matches(self, exc):
+        short = exc.split(".")[-1]
+        return any(n in ("Exception", "BaseException") or n.split(".")[-1] == short for n in self.names)
+
+    def __deepcopy__(self, memo):
+        return self
+
+    def ai_call(self, interp, attr, pos, kw, node):
+        return None
+
+
+class _GenKilled(BaseException):
+    pass
+
+
+class LazyGen(HostIter):
+    """A generator of the code under evaluation, run lazily: its body executes in a thread of its own that is handed the
+    baton only inside next() -- one item at a time, exactly as Python interleaves a generator with its consumer (partial
+    consumption, side effects between items, `finally` at close)."""
+
+    def __init__(self, interp, func, env):
+        import threading
+        self.interp, self.func, self.env = interp, func, env
+        self.name = "generator %s" % func.qual
+        self.it = self
+        self.thread = None
+        self.done = False
+        self.killed = False
+        self.box = None
+        self.saved_depth = 0
+        self.to_gen = threading.Semaphore(0)
+        self.to_consumer = threading.Semaphore(0)
+        self.is_generator = True
+
+    def __deepcopy__(self, memo):
+        return self
+
+    def __iter__(self):
+        return self
+
+    def __repr__(self):
+        return "<%s>" % self.name
+
+    def __next__(self):
+        import threading
+        if self.done:
+            raise StopIteration
+        I = self.interp
+        consumer_depth = I.depth
+        I._lazy_stack.append(self)
+        if self.thread is None:
+            I.depth = consumer_depth + 1
+            self.thread = threading.Thread(target=self._run, daemon=True)
+            I._lazy_all.append(self)
+            self.thread.start()
+        else:
+            I.depth = self.saved_depth
+            self.to_gen.release()
+        self.to_consumer.acquire()
+        I._lazy_stack.pop()
+        self.saved_depth = I.depth
+        I.depth = consumer_depth
+        kind = self.box[0]
+        if kind == "item":
+            return self.box[1]
+        self.done = True
+        if kind == "error":
+            raise self.box[1]
+        raise StopIteration
+
+    def _run(self):
+        I = self.interp
+        try:
+            I.exec_block(self.func.node.body, self.env)
+            self.box = ("done",)
+        except ReturnEx:
+            self.box = ("done",)
+        except _GenKilled:
+            self.box = ("done",)
+        except BaseException as e:          # RaiseEx / Unsupported / internal errors: re-raised in the consumer
+            self.box = ("error", e)
+        self.to_consumer.release()
+
+    def deliver(self, v):
+        """Called on the generator's thread at a `yield`: hand the item over and wait for the next request."""
+        self.box = ("item", v)
+        self.to_consumer.release()
+        self.to_gen.acquire()
+        if self.killed:
+            raise _GenKilled()
+
+    def close(self):
+        """generator.close(): the body is unwound from its yield (finally blocks run)."""
+        if self.thread is not None and not self.done:
+            self.killed = True
+            I = self.interp
+            consumer_depth = I.depth
+            I._lazy_stack.append(self)
+            I.depth = self.saved_depth
+            self.to_gen.release()
+            self.to_consumer.acquire()
+            I._lazy_stack.pop()
+            I.depth = consumer_depth
+        self.done = True
+
+    def ai_call(self, interp, attr, pos, kw, node):
+        if attr == "close":
+            self.close()
+            return None
+        if attr in ("__next__", "send") and not [x for x in pos if x is not None]:
+            try:
+                return next(self)
+            except StopIteration:
+                raise RaiseEx("StopIteration", "", node)
+        if attr == "__iter__":
+            return self
+        raise Unsupported("generator method %s" % attr)
+
+
 class GenList(list):
     """The items a generator expression will produce (evaluated eagerly): a list to every consumer, and next() takes
     items off its front."""
@@ -472,6 +597,10 @@ class Interp:
         self.ext_summaries = {}   # "urllib.parse.unquote" -> fn(interp, pos, kw, node)
         self.hole_free_of = ""    # characters the symbolic holes are assumed not to contain
         self._mod_busy = set()
+        self.lazy_generators = False   # generators of the evaluated code run lazily (threads with a baton) instead of being collected
+        self._lazy_stack = []
+        self._lazy_all = []
+        self.keep_generators = False   # scenario mode: a generator returned by an evaluated call stays alive for the check to consume
         self.holes_containing = {}    # {hole-name prefix: text the hole is known to contain}
         self.vfs = None           # scenario mode: {path name: MemFile content}; open()/unlink act on it
         self.construct_real = set()   # package classes whose constructor is evaluated (their __init__ run on a fresh object)
@@ -508,6 +637,14 @@ class Interp:
                 self.trace.result = ("return", v)
             except RaiseEx as e:
                 self.trace.result = ("raise", e.exc, e.msg)
+            if not self.keep_generators:
+                for g_ in list(self._lazy_all):
+                    try:
+                        g_.close()
+                    except BaseException:
+                        pass
+                self._lazy_all = []
+            self._lazy_stack = []
             traces.append(self.trace)
             work.extend(self.pending)
             if len(traces) > self.MAX_TRACES:
@@ -631,6 +768,8 @@ class Interp:
             for k_, v_ in closure.items():
                 env.setdefault(k_, v_)
         is_gen = any(isinstance(n_, (ast.Yield, ast.YieldFrom)) for n_ in walk_own(func.node))
+        if is_gen and self.lazy_generators and (self.depth > 0 or self.keep_generators):
+            return LazyGen(self, func, env)
         collect = is_gen and self.depth > 0
         if collect:
             self._gen_stack.append([])
@@ -660,11 +799,24 @@ class Interp:
                 v = self.eval(st.value.value, env) if st.value.value is not None else None
                 vals = [v]
                 if isinstance(st.value, ast.YieldFrom):
-                    if isinstance(v, (list, tuple, StreamVal, HostIter)):
+                    import threading as _th0
+                    lazy_here = bool(self._lazy_stack) and _th0.current_thread() is self._lazy_stack[-1].thread
+                    if self._object_iter(v, st) is not None:
+                        v = self._object_iter(v, st, run=True)
+                    if isinstance(v, (StreamVal, HostIter)) and lazy_here:
+                        vals = []          # delivered item by item below
+                    elif isinstance(v, (list, tuple, StreamVal, HostIter)):
+                        vals = list(v)
+                    elif isinstance(v, dict):
                         vals = list(v)
                     elif v is None:
                         vals = []
-                if self._gen_stack:
+                import threading as _th
+                if self._lazy_stack and _th.current_thread() is self._lazy_stack[-1].thread:
+                    g_ = self._lazy_stack[-1]
+                    for v_ in (vals if not isinstance(st.value, ast.YieldFrom) or not isinstance(v, (StreamVal, HostIter)) else v):
+                        g_.deliver(v_)
+                elif self._gen_stack:
                     # a generator called from the code under evaluation: its items are collected for the caller
                     self._gen_stack[-1].extend(vals)
                 else:
@@ -731,18 +883,24 @@ class Interp:
                 self.exec_block(st.orelse, env)
             return
         if isinstance(st, ast.While):
-            n_iter = 0
-            while self.decide(self.eval(st.test, env), st):
+            n_iter = n_forked = 0
+            broke = False
+            while True:
+                n_dec = len(self.trace.decisions)
+                if not self.decide(self.eval(st.test, env), st):
+                    break
                 n_iter += 1
-                if n_iter > 64:
-                    raise Unsupported("while loop at line %s does not terminate within 64 abstract iterations" % st.lineno)
+                n_forked += len(self.trace.decisions) > n_dec          # the test was undecided: a fork
+                if n_forked > 64 or n_iter > 200000:
+                    raise Unsupported("while loop at line %s does not terminate within %d abstract iterations" % (st.lineno, 64 if n_forked > 64 else 200000))
                 try:
                     self.exec_block(st.body, env)
                 except BreakEx:
+                    broke = True
                     break
                 except ContinueEx:
                     continue
-            else:
+            if not broke:
                 self.exec_block(st.orelse, env)
             return
         if isinstance(st, ast.Return):
@@ -826,6 +984,10 @@ class Interp:
                 self.trace.events.append(("with", v, st))
             try:
                 self.exec_block(st.body, env)
+            except RaiseEx as e_:
+                # contextlib.suppress(...): the named exceptions end the block quietly
+                if not any(isinstance(h, SuppressVal) and h.matches(e_.exc) for h in hosts):
+                    raise
             finally:
                 for h in reversed(hosts):
                     h.ai_call(self, "__exit__", [], {}, st)
@@ -1805,6 +1967,8 @@ class Interp:
         r_lib = self._more_lib(name, pos, kw, node)
         if r_lib is not NotImplemented:
             return r_lib
+        if name == "contextlib.suppress":
+            return SuppressVal([getattr(x, "name", str(x)) for x in pos])
         if name == "itertools.count":
             import itertools as _it2
             a_ = [x for x in list(pos) + [kw[k] for k in ("start", "step") if k in kw]]
@@ -1887,6 +2051,15 @@ class Interp:
             return self.e_Compare(cmp_, {"_a": pos[0], "_b": pos[1]})
         if name.startswith("operator.") and name.split(".")[1] in ("eq", "ne", "lt", "le", "gt", "ge") and not pos:
             return NotImplemented
+        if name.startswith("operator.") and name.split(".")[1] in ("add", "sub", "mul", "floordiv", "mod", "and_", "or_", "xor", "lshift", "rshift", "truediv", "pow") and len(pos) == 2:
+            op = {"add": ast.Add, "sub": ast.Sub, "mul": ast.Mult, "floordiv": ast.FloorDiv, "mod": ast.Mod, "and_": ast.BitAnd, "or_": ast.BitOr, "xor": ast.BitXor,
+                  "lshift": ast.LShift, "rshift": ast.RShift, "truediv": ast.Div, "pow": ast.Pow}[name.split(".")[1]]()
+            return self.binop(op, pos[0], pos[1], node)
+        if name in ("operator.neg", "operator.pos", "operator.abs", "operator.truth", "operator.index") and len(pos) == 1:
+            if name.endswith("truth"):
+                return bool(self.decide(pos[0], node))
+            if isinstance(pos[0], (int, float)) and not isinstance(pos[0], bool):
+                return {"neg": -pos[0], "pos": +pos[0], "abs": abs(pos[0]), "index": pos[0]}[name.split(".")[1]]
         if name == "operator.getitem" and len(pos) == 2:
             return self._getitem(pos[0], pos[1], node, env0)
         if name == "operator.contains" and len(pos) == 2:
@@ -2440,7 +2613,9 @@ class Interp:
             if isinstance(coll, Opaque):
                 if isinstance(f, TypeVal) and f.name == "str":
                     return RepList(None, coll)
-                raise Unsupported("map over opaque with %r" % (f,))
+                # per element of an unknown collection: like a comprehension over it
+                self.trace.events.append(("loop-opaque", coll, node))
+                return RepList(self.call(f, [Sym("%s[]" % coll.name, "any", None)], {}, node, env), coll)
             raise Unsupported("map(%r)" % (coll,))
         if name == "filter" and len(pos) == 2 and isinstance(pos[1], (list, tuple, StreamVal, HostIter)):
             pred_ = pos[0]
@@ -2882,6 +3057,12 @@ class Interp:
                         order = sorted(range(len(base)), key=lambda i: keys[i], reverse=rev)
                     base[:] = [base[i] for i in order]
                 return None
+            if attr == "__contains__" and len(pos) == 1:
+                return self.contains(base, pos[0], node)
+            if attr == "__len__" and not pos:
+                return len(base)
+            if attr == "__iter__" and not pos:
+                return StreamVal(base, "iter(list)")
             raise Unsupported("list method %s" % attr)
         if isinstance(base, tuple):
             if attr == "index":
@@ -2914,6 +3095,9 @@ class Interp:
             last = pos[0] if pos else kw.get("last", True)
             k_ = list(base)[-1 if last else 0]
             return (k_, base.pop(k_))
+        if isinstance(base, dict) and attr == "clear" and not pos:
+            base.clear()
+            return None
         if isinstance(base, (list, tuple, dict)) and attr == "__contains__" and len(pos) == 1:
             return self.contains(base, pos[0], node)
         if isinstance(base, dict):
